@@ -13,8 +13,9 @@
 //! 2       2     cell_count   Number of cells/entries in this page
 //! 4       2     free_start   Offset where free space begins
 //! 6       2     free_end     Offset where free space ends
-//! 8       1     frag_bytes   Fragmented free bytes within cell area
-//! 9       3     reserved     Reserved for future use
+//! 8       2     frag_bytes   Fragmented free bytes within cell area (a page holds up to
+//!                            16 KiB of cells, so one byte cannot count them)
+//! 10      2     reserved     Reserved for future use
 //! 12      4     right_child  Right child page (interior) / next leaf (leaf)
 //! ```
 //!
@@ -121,8 +122,8 @@ pub struct PageHeader {
     cell_count: U16<LittleEndian>,
     free_start: U16<LittleEndian>,
     free_end: U16<LittleEndian>,
-    frag_bytes: u8,
-    reserved: [u8; 3],
+    frag_bytes: U16<LittleEndian>,
+    reserved: [u8; 2],
     right_child: U32<LittleEndian>,
 }
 
@@ -134,8 +135,8 @@ impl PageHeader {
             cell_count: U16::new(0),
             free_start: U16::new(super::PAGE_HEADER_SIZE as u16),
             free_end: U16::new(super::PAGE_SIZE as u16),
-            frag_bytes: 0,
-            reserved: [0; 3],
+            frag_bytes: U16::new(0),
+            reserved: [0; 2],
             right_child: U32::new(0),
         }
     }
@@ -220,12 +221,12 @@ impl PageHeader {
         self.free_end.get().saturating_sub(self.free_start.get())
     }
 
-    pub fn frag_bytes(&self) -> u8 {
-        self.frag_bytes
+    pub fn frag_bytes(&self) -> u16 {
+        self.frag_bytes.get()
     }
 
-    pub fn set_frag_bytes(&mut self, bytes: u8) {
-        self.frag_bytes = bytes;
+    pub fn set_frag_bytes(&mut self, bytes: u16) {
+        self.frag_bytes.set(bytes);
     }
 
     pub fn right_child(&self) -> u32 {
